@@ -36,7 +36,7 @@ CHECKS = {
         text="encode_pdu, _write_pdu, _read_pdu (plain and under an ideal AEAD), _determine_fragment_size and the CoAP batch codec are "
              "executed symbolically with fragment size 8..512, body length, tid/iid/opcode, per-piece control/tid/status and split "
              "points as solver variables; z3 discharges reassembly == body, fragment <= size, rejection of wrong tid / missing "
-             "continuation flag, i-th result <-> i-th item with error precedence. Bounded by fragment/piece/item counts.",
+             "continuation flag, i-th result <-> i-th item with error precedence. Bounded by fragment/piece/item counts. Also: a response in 60 one-byte fragments, the real CoAP request/response pipelines for read/write/subscribe/unsubscribe, CoAP read end to end (unit of C13).",
         note="Trusted: ideal AEAD for encrypted variants, rope/struct shims (model-based differential vs the real library incl. real "
              "ChaCha20), z3. bleak client is a scripted stub; lru_cache bypassed via __wrapped__.",
         design="DESIGN.md section 5 C17"),
@@ -54,7 +54,7 @@ CHECKS = {
              "rounding to ctx.prec digits decided by decade forks, context rounding modes): for each configuration of a grid of "
              "(format, min, max, step) and EVERY input in the stated range (all integers, or all decimals n/10^9) z3 discharges "
              "type, on-grid, nearest, tie-upward and in-range obligations - exact for integer formats, six significant digits for "
-             "fractional ones. Garbage / non-finite inputs and bool spellings: concrete side check on the real function.",
+             "fractional ones. Garbage / non-finite inputs and bool spellings: concrete side check on the real function. Also: maxima that are not grid points, and Service.build_update for a value equal to / different from the stored one.",
         note="Trusted: the Decimal model (cross-checked against the real decimal module on every sampled path by the differential), "
              "float(Decimal) as identity, z3. Binary floats with expansions longer than 9 fractional digits are outside.",
         design="DESIGN.md section 5 C14"),
@@ -63,7 +63,7 @@ CHECKS = {
              "mappers and CoAPPairing.put_characteristics run symbolically: the request-wide status, or the status of one reply item "
              "at any position, is an arbitrary integer in +-100000 (so 0, every defined code of either sign and unknown codes are "
              "covered by the solver), reply shapes are selectors (partial, duplicated, non-dict, id-less entries, 204 vs 207); z3 "
-             "discharges the per-id outcome table and listeners told == accepted and readable; BlePairing.put_characteristics (decorated) is driven over all permission x outcome vectors of 3 writes.",
+             "discharges the per-id outcome table and listeners told == accepted and readable; BlePairing.put_characteristics (decorated) is driven over all permission x outcome vectors of 3 writes. Also: a write refused as a whole (status, no list), CoAP read_characteristics end to end with non-readable characteristics and empty values, and the CoAP batch codec units of C17.",
         note="Trusted: stubs for connection/accessories (perms only), Enum lookup through the real enum module, z3. Formatting of "
              "'Unknown error code: n' is compared on the real library only.",
         design="DESIGN.md section 5 C13"),
@@ -72,7 +72,7 @@ CHECKS = {
              "are solver variables over 0..255 (plus absent / empty / two-byte variants) and the other fields a symbolic subset; the "
              "reply bytes pass through the real TLV decoder as each transport applies it (with and without the 'expected' filter) into "
              "the real generators and pairing calls (BLE with its full decorator stack). z3 discharges 'never success' and the table "
-             "4-5 exception class. Later steps are reached through ideal crypto (symbolic) / real crypto (replay).",
+             "4-5 exception class. Later steps are reached through ideal crypto (symbolic) / real crypto (replay). Also: the whole IP path post_tlv -> post -> request with HTTP 200/470/429, BLE fragments through the real _pairing_char_write at every split, BLE calls that restore subscriptions afterwards, unfiltered replies with other items first.",
         note="Trusted: ideal crypto only as environment to reach later steps, scripted transports, z3. Oracle calibration in DESIGN.md section 7.",
         design="DESIGN.md section 5 C04"),
     "C01": dict(
@@ -81,7 +81,7 @@ CHECKS = {
              "{honest, arbitrary, truncated, replayed-from-another-exchange, adversary-encrypted with every identifier / signature / "
              "layout variant} encrypted data, arbitrary fields being symbolic bytes; z3 decides whether a reply is byte-identical to "
              "the genuine one and the check proves accepted <=> genuine, that a conformant accessory accepts M3, and that both ends "
-             "derive identical Control/Event keys and session id; IP and BLE key installation checked for label, direction, counter 0.",
+             "derive identical Control/Event keys and session id; IP and BLE key installation checked for label, direction, counter 0. Also: M4 variants (error items incl. empty, wrong / empty / over-long State), over-long public keys, truncated resume tags, two exchanges in one process (fresh key, replay of the first M2), two pairing records with one identifier, is_secure during re-verification, CoAP key installation.",
         note="Trusted: the ideal-cryptography assumption (DESIGN.md 4.2) - real X25519/Ed25519/ChaCha20/HKDF reject every non-genuine "
              "value; sampled paths are replayed with real crypto on the real library. CoAP key installation not covered.",
         design="DESIGN.md section 5 C01"),
@@ -90,7 +90,7 @@ CHECKS = {
              "HKDF, Ed25519): every subset of M2 fields, M4 proof variants (right, wrong-code accessory, arbitrary symbolic bytes, "
              "truncated, absent) and M6 variants (honest, arbitrary, truncated, wrong key label, wrong nonce, every incomplete or "
              "wrongly signed sub-TLV under the right key). Proved: data is returned iff the exchange is fully authenticated, the "
-             "returned record is self-consistent, a conformant accessory accepts M3 and M5.",
+             "returned record is self-consistent, a conformant accessory accepts M3 and M5. Also: accessory identifiers in several spellings, empty State / undefined error code next to valid content, a misplaced item instead of the proof, two pairings in one process (fresh SRP value, untouched first result, replay of the first exchange, another code after an exchange with the old one), and the byte-level SRP unit of C02.",
         note="Trusted: ideal cryptography incl. ideal SRP (real SRP values are C02); sampled paths replayed with the repository's "
              "SrpServer and real Ed25519/ChaCha20/HKDF on the real library. Transport drivers not covered.",
         design="DESIGN.md section 5 C03"),
@@ -99,7 +99,7 @@ CHECKS = {
              "EncryptionContext encrypt/decrypt/decrypt_event/_decrypt_response) from ARBITRARY symbolic counters (0..2^48) with a message "
              "that is genuine-with-symbolic-counter or forged: z3 discharges nonce = current send counter, accept only in order / at "
              "most once, counters advance once, failed decrypt leaves them unchanged. With 'new keys start at 0' the induction covers "
-             "histories of any length. The CoAP resynchronisation heuristics are reported as two KNOWN-FINDINGs.",
+             "histories of any length. The CoAP resynchronisation heuristics are reported as two KNOWN-FINDINGs. Also: CoAP post_bytes with cancelled/timed-out/failed exchanges, key lifetime across Pair-Resume, the persisted BLE watermark, and shared units: fresh exchange key (C01), IP receive/send steps (C05), BLE broadcast step (C18).",
         note="Trusted: ideal AEAD; counters as mathematical integers (no wrap); the close-connection-on-failure half needs a running loop "
              "and is not decided (the induction does not depend on it for IP/BLE).",
         design="DESIGN.md section 5 C06"),
@@ -108,7 +108,7 @@ CHECKS = {
              "byte strings as abstract (value, width) encodings whose minimal width is a FREE integer (so every leading-zero situation "
              "of A, B, S, salt and the digests is inside one query), SHA-512 and modexp as free functions; z3 proves A, K, M1 and the "
              "accepted M2 equal the RFC 5054/HAP reference terms for every a, B, 16-byte salt, that a wrong code's proof differs and "
-             "that M5 is keyed from the 64-byte K. The real arithmetic is replayed per leading-zero class from mined cases.",
+             "that M5 is keyed from the 64-byte K. The real arithmetic is replayed per leading-zero class from mined cases. Also: the client API in three call orders (S first and again, accessory proof checked before the own proof), a mistyped code followed by the right one with the same salt, every leading-zero class through perform_pair_setup_part2, and the M4/M6 variants of C03 (shared unit).",
         note="Trusted: hash/modexp as free functions (no-collision assumption), the 30-line reference in harness/c02.py, z3. Salts of "
              "other lengths and short B values are outside.",
         design="DESIGN.md section 5 C02"),
@@ -118,7 +118,7 @@ CHECKS = {
              "advertising id, or arbitrary bytes; key / description present or not; the 100-candidate loop is fully unrolled. z3 "
              "discharges 'listeners called and state advanced iff authentic and inner GSN == nonce and s < c < s+100' and that the "
              "decoded value and id are delivered. Induction over the history gives freshness for sequences of any length. Routing "
-             "by advertising id through BleController._device_detected.",
+             "by advertising id through BleController._device_detected. Also: the description restored by the real BlePairing.__init__ from the cache, and two broadcast keys used with one nonce.",
         note="Trusted: ideal 4-byte-tag AEAD (2^-32 forgery chance outside), stub accessory database, z3; sampled paths replayed with "
              "the real pure-Python ChaCha20-Poly1305 partial-tag code.",
         design="DESIGN.md section 5 C18"),
